@@ -66,6 +66,10 @@ def witnesses(row):
                 wit.append(("S13_enable_restart_failed", r))
             elif row["ended"] == "dead" or publish_failed(row):
                 wit.append(("S2_enable_before_publish_cut", r))
+            elif a1 == a0 and master in ex and not ex[master]["reach"] and (a0 - {x for x in a0 if x in ex and ex[x]["reach"]}):
+                # nothing was published although a joiner had been enabled: the iteration also wanted to evict a member
+                # and the eviction guard refused because the master had become unreachable in between
+                wit.append(("S15_enable_then_shrink_refused_master_lost", r))
             else:
                 wit.append(("unexplained_a_enabled_not_listed", r))
         elif r in a0:                                        # a member that left the list with the flag on
@@ -85,6 +89,10 @@ def witnesses(row):
             wit.append(("F6_enable_failed_decrement", ""))
         elif (row["ended"] == "dead" or publish_failed(row)) and lowered:
             wit.append(("S3_wait_count_lowered_before_publish_cut", ""))
+        elif lowered and a1 == a0 and not ex[master]["reach"]:
+            # master-first order: the wait count was lowered for the shrunk list, then the eviction guard refused to
+            # publish it because the master had stopped answering
+            wit.append(("S16_wait_count_lowered_then_shrink_refused_master_lost", ""))
         elif failed(("SetWaitCount", "SemiSyncSetMaster"), master):
             wit.append(("S11_master_adjust_failed_list_published", ""))
         elif row["ended"] == "dead" and a1 != a0 and not lowered:
